@@ -36,3 +36,26 @@ Example C02_monitor_rejects :
 Proof. vm_compute. repeat split. Qed.
 
 Print Assumptions C02_auth_monitor_accepts_every_model_trace.
+
+(* ---- second monitor (Model/Monitors2b.v step2b): an unauthenticated response never changes the announced protocol state ----
+   Between a response that fails authentication and the next schedule announcement (the tail of the check, or the policy's
+   next timing) no protocol-state change is announced: in particular the poll interval an attacker put into an
+   X-Retry-After header of a forged response - or the absence of the header - is not adopted.  (What is stored is C07's
+   monitor, which runs beside it.) *)
+Require Import Verif.Model.Monitors2b Verif.Proofs.C02bProof.
+
+Theorem C02_forged_response_changes_no_protocol_state :
+  forall ep cfg url cup apps e, e_trace e = [] ->
+    accepts step2b (init2b cup) (run_case ep cfg url cup apps e) = true.
+Proof. exact model_accepted_c02b. Qed.
+
+Example C02b_monitor_rejects :
+  let w := {| w_uri := []; w_headers := []; w_body := []; w_sum := {| ws_source := ScheduledTask; ws_session := None; ws_request := None; ws_apps := [] |} |} in
+  let ps := {| ps_poll := Some 5000000000; ps_fails := 0; ps_proxied := 0 |} in
+  let sc := {| s_last_update := None; s_last_check := None; s_next := None |} in
+  accepts step2b (init2b (Some 1%N)) [AHttp w (HResp 200%N (Some (s2b "5")) false BBad); AEvent (EvProtocol ps)] = false
+  /\ accepts step2b (init2b (Some 1%N)) [AHttp w (HResp 200%N (Some (s2b "5")) true BBad); AEvent (EvProtocol ps)] = true
+  /\ accepts step2b (init2b (Some 1%N)) [AHttp w (HResp 200%N (Some (s2b "5")) false BBad); AEvent (EvSchedule sc); AEvent (EvProtocol ps)] = true.
+Proof. vm_compute. repeat split. Qed.
+
+Print Assumptions C02_forged_response_changes_no_protocol_state.
